@@ -239,7 +239,7 @@ def run_job(job):
             out = os.path.join(d, "out")
             try:
                 p = subprocess.run([out], stdout=subprocess.PIPE, stderr=subprocess.PIPE,
-                                   timeout=20, env=extra_run_env)
+                                   timeout=90, env=extra_run_env)
                 got, rc = p.stdout, p.returncode
             except subprocess.TimeoutExpired:
                 got, rc = b"", "timeout"
